@@ -143,7 +143,9 @@ fn cmd_replay(args: &[String]) -> i32 {
         stats.skipped_undef += a.skipped_undef;
         stats.skipped_ovf += a.skipped_ovf;
         stats.skipped_tainted += a.skipped_tainted;
+        stats.skipped_tie += a.skipped_tie;
         stats.det_compared += a.det_compared;
+        stats.markov_checked += a.markov_checked;
         stats.eff_compared += a.eff_compared;
         stats.range_checked += a.range_checked;
         stats.deg_checked += a.deg_checked;
